@@ -105,16 +105,22 @@ structure Mono (s s' : State) : Prop where
   closing : s.tstate = .closing → s'.tstate = .closing
   frozen : s.tstate ≠ .reachable → s'.nextID = s.nextID ∧ s'.streams.length = s.streams.length
   ga : s.goAwayClosed = true → s'.goAwayClosed = true
+  gaNew : s'.goAwayClosed = true → s.goAwayClosed = true ∨ s'.tstate ≠ .reachable
 
 theorem Mono.refl (s : State) : Mono s s :=
-  ⟨SMono.refl _, RMono.refl _, id, id, fun _ => ⟨rfl, rfl⟩, id⟩
+  ⟨SMono.refl _, RMono.refl _, id, id, fun _ => ⟨rfl, rfl⟩, id, Or.inl⟩
 
 theorem Mono.trans {a b c : State} (h1 : Mono a b) (h2 : Mono b c) : Mono a c := by
   refine ⟨SMono.trans h1.str h2.str, RMono.trans h1.rpc h2.rpc, fun h => h2.notReach (h1.notReach h),
-    fun h => h2.closing (h1.closing h), fun h => ?_, fun h => h2.ga (h1.ga h)⟩
-  have a1 := h1.frozen h
-  have a2 := h2.frozen (h1.notReach h)
-  exact ⟨a2.1.trans a1.1, a2.2.trans a1.2⟩
+    fun h => h2.closing (h1.closing h), fun h => ?_, fun h => h2.ga (h1.ga h), fun h => ?_⟩
+  · have a1 := h1.frozen h
+    have a2 := h2.frozen (h1.notReach h)
+    exact ⟨a2.1.trans a1.1, a2.2.trans a1.2⟩
+  · rcases h2.gaNew h with hb | hc
+    · rcases h1.gaNew hb with ha | hb'
+      · exact Or.inl ha
+      · exact Or.inr (h2.notReach hb')
+    · exact Or.inr hc
 
 /-! ### projections of the primitives onto the fields `Mono` talks about -/
 
@@ -210,7 +216,8 @@ macro "cs_proj" : tactic => `(tactic|
 theorem Mono.of_fields {s0 s s' : State} (h : Mono s0 s) (hs : SMono s.streams s'.streams)
     (hl : s'.streams.length = s.streams.length) (h1 : RMono s.rpcs s'.rpcs) (h2 : s'.tstate = s.tstate)
     (h3 : s'.nextID = s.nextID) (h4 : s'.goAwayClosed = s.goAwayClosed) : Mono s0 s' := by
-  refine Mono.trans h ⟨hs, h1, by rw [h2]; exact id, by rw [h2]; exact id, fun _ => ⟨h3, hl⟩, by rw [h4]; exact id⟩
+  refine Mono.trans h ⟨hs, h1, by rw [h2]; exact id, by rw [h2]; exact id, fun _ => ⟨h3, hl⟩, by rw [h4]; exact id,
+    by rw [h4]; exact Or.inl⟩
 
 macro "smono" : tactic => `(tactic|
   repeat (first
@@ -239,6 +246,7 @@ macro "mono_leaf" : tactic => `(tactic|
    | (constructor
       · (try simp) <;> smono
       · (try simp) <;> rmono
+      · (try simp) <;> (try (intros; simp_all))
       · (try simp) <;> (try (intros; simp_all))
       · (try simp) <;> (try (intros; simp_all))
       · (try simp) <;> (try (intros; simp_all))
@@ -284,6 +292,7 @@ theorem mono_markVictims (s : State) (id upper : Nat) : Mono s (s.markVictims id
   · exact fun h => h
   · intro _; simp
   · exact fun h => h
+  · exact fun h => Or.inl h
 
 theorem mono_closeVictims (s : State) (id upper : Nat) (n : Nat) : Mono s (s.closeVictims id upper n) := by
   induction n with
@@ -322,14 +331,24 @@ theorem mono_orphanQueued (s : State) (l : List Item) : Mono s (s.orphanQueued l
 
 theorem mono_put (s : State) (it : Item) : Mono s (s.put it) := by mono_leaf
 
+theorem mono_goAwayFirst (s : State) (code : Nat) (d : Bytes) (h : s.tstate ≠ .closing) : Mono s (s.goAwayFirst code d) := by
+  unfold State.goAwayFirst; splits
+  all_goals (constructor <;> simp_all [SMono.refl, RMono.refl])
+
+theorem mono_goAwayKill (s : State) (id up : Nat) : Mono s (s.goAwayKill id up) := by
+  unfold State.goAwayKill
+  splits
+  all_goals first
+    | mono_leaf
+    | (refine Mono.trans ?_ (mono_closeVictims ..); refine Mono.trans ?_ (mono_markVictims ..); mono_leaf)
+
 theorem mono_handleGoAway (s : State) (id code : Nat) (d : Bytes) : Mono s (s.handleGoAway id code d) := by
   unfold State.handleGoAway
   splits
   all_goals first
     | mono_leaf
-    | (refine Mono.trans ?_ (mono_put ..); refine Mono.trans ?_ (mono_closeVictims ..); refine Mono.trans ?_ (mono_markVictims ..); mono_leaf)
-    | (refine Mono.trans ?_ (mono_closeVictims ..); refine Mono.trans ?_ (mono_markVictims ..); mono_leaf)
-    | (refine Mono.trans ?_ (mono_put ..); mono_leaf)
+    | exact mono_goAwayKill ..
+    | exact (mono_goAwayFirst _ _ _ (by assumption)).trans ((mono_goAwayKill ..).trans (mono_put ..))
 
 theorem mono_closeP1 (s : State) (e : Bool) : Mono s (s.closeP1 e) := by
   unfold State.closeP1
